@@ -6,6 +6,7 @@
 #include <bspline/interpolation/interpolation.h>
 
 #include <cstdlib>
+#include <memory>
 #include <stdexcept>
 #include <vector>
 
@@ -129,6 +130,22 @@ inline size_t ok_moved_into_rvalue_ref_param(std::vector<D> v) {
   all.emplace_back(std::move(v));
   return all.size();
 }
+// R-OWN.borrow: shared_ptr that does not own its pointee (aliasing constructor / address of a parameter)
+struct CtlBorrow {
+  std::shared_ptr<const Spline<D, 1>> _s;
+  explicit CtlBorrow(const Spline<D, 1> &s) : _s(std::shared_ptr<const Spline<D, 1>>{}, &s) {}
+};
+struct CtlBorrow2 {
+  std::shared_ptr<const Spline<D, 1>> _s;
+  explicit CtlBorrow2(const Spline<D, 1> &s) : _s(&s, [](const Spline<D, 1> *) {}) {}
+};
+struct OkOwning {
+  std::shared_ptr<const Spline<D, 1>> _s;
+  explicit OkOwning(const Spline<D, 1> &s) : _s(std::make_shared<const Spline<D, 1>>(s)) {}
+};
+// R-API.param: (synthetic baseline says the parameter was a const reference)
+template <typename F>
+inline D ctl_api_param(F &&f, const Spline<D, 1> &a) { return f(a.front()); }
 // R-API.ret: (synthetic baseline says this returned by value)
 inline const support::Grid<D> &ctl_api_ref(const Spline<D, 1> &a) { return a.getSupport().getGrid(); }
 // R-GRD.fwd: compound operator that skips its member operator on one path
@@ -151,6 +168,11 @@ inline void instantiate() {
     (void)ctl_ret_local(a0);
     (void)ctl_ret_temporary(a0);
     (void)ctl_api_ref(a0);
+    CtlBorrow cb{a0};
+    CtlBorrow2 cb2{a0};
+    OkOwning oo{a0};
+    (void)cb; (void)cb2; (void)oo;
+    (void)ctl_api_param([](const D &x) { return x; }, a0);
     (void)ctl_moved_and_read(a0.getSupport());
     (void)ok_moved_into_rvalue_ref_param({1.0});
     CtlCompound cc{a0, 1.0};
